@@ -691,13 +691,9 @@ def classes_of(c, aspect):
     """Labels computed from the case and the violated clause of the property."""
     s = c["search"]
     out = ["%s:%s" % (s, aspect), "search=" + s]
-    # only the conversion's pairing clauses; the Fitness -> sampler path is judged by the unlabelled
-    # `contract` aspect (contract_fails) and the best fit / keys / weights by theirs
-    if s.startswith("pyswarms") and aspect in ("ll", "lp") and VARIANTS.get("PySwarms") == "pinned":
-        out.append("pyswarms-pairing")
-    # the MCMC labels apply only while the source has the pinned (unaligned) log-prob call
-    if s == "emcee" and aspect == "ll" and VARIANTS.get("Emcee") == "unaligned":
-        out.append("emcee-logprob-slice")
+    # (the emcee and pyswarms pairing defects are repaired in /repo -- 97df212, fe260fe -- and carry no label any
+    #  more: a failure there is a VIOLATION; their pinned cases are the regression:* obligations)
+    # the zeus label applies only while the source has the pinned (unaligned) log-prob call
     if s == "zeus" and aspect == "ll" and VARIANTS.get("Zeus") == "unaligned":
         out.append("zeus-logprob-unthinned")
     return out
@@ -842,6 +838,8 @@ def run(ctx):
         "Coq 8.16.1 kernel incl. vm_compute; primitive floats (PrimFloat, Uint63) are kernel primitives",
         "correspondence harness c05.py / impl/c05_impl.py / impl/c05_classes.py; Python float.hex; numpy.exp and the prior objects' "
         "log_prior_from_value supply oracle tables",
+        "corpus/C05/*.json are the pinned cases of the repaired defects (emcee 97df212, SneakyPool c80ac95, pyswarms fe260fe): "
+        "obligations regression:<signature> fail if one of them regresses",
         "third-party samplers (emcee, dynesty, scipy.optimize, pyswarms) are covered only by the sampler-contract hypotheses of the "
         "theorems and by the end-to-end runs; zeus, nautilus, ultranest are not installed: their conversions run on fake internals",
         "the instance handed back is covered up to the parameter vector given to instance_from_vector (C01 covers vector -> instance); "
@@ -888,6 +886,19 @@ def run(ctx):
         rp = json.load(open(ctx.replay))
         if rp.get("case"):
             conv, e2e = ([rp["case"]], []) if rp["case"]["kind"] in ("conv", "init") else ([], [rp["case"]])
+    # pinned cases of repaired defects (corpus/C05/*.json): always run, each is a regression:* obligation
+    pinned = []
+    if not ctx.replay:
+        cdir = os.path.join(common.VERIF, "corpus", "C05")
+        for fn in sorted(os.listdir(cdir)) if os.path.isdir(cdir) else []:
+            if fn.endswith(".json"):
+                d = json.load(open(os.path.join(cdir, fn)))
+                c = d["case"]
+                c["pinned"] = d["pinned"]
+                pinned.append(c)
+                (e2e if c["kind"] == "e2e" else conv).append(c)
+    regress = {c["pinned"]: [] for c in pinned}
+    ran_pinned = set()
     for i, c in enumerate(conv + e2e):
         c["idx"] = i
     # few, fat driver processes: importing autofit costs ~3 s of CPU per process
@@ -948,6 +959,8 @@ def run(ctx):
                 continue
             if not legit:
                 ctx.oracle["failures"] += 1
+                if c.get("pinned"):
+                    regress[c["pinned"]].append("raised %s" % r["exc"])
                 ctx.failure("oracle", "implementation raised %s: %s" % (r["exc"], r.get("msg")), key,
                             classes=classes_of(c, "raised"), impl=r)
                 continue
@@ -976,6 +989,9 @@ def run(ctx):
                     fails = [f for f in fails if f[1] != "the search returned no samples"]
                 if (ok_r.get("notes") or {}).get("fit_failed") == "numpy-median_pdf":
                     emcee_runs["result_unobservable"] += 1
+        if c.get("pinned"):
+            regress[c["pinned"]] += ["%s: %s" % f for f in fails] or []
+            ran_pinned.add(c["pinned"])
         if fails:
             ctx.oracle["failures"] += 1
             seen = set()
@@ -1012,6 +1028,9 @@ def run(ctx):
         t0 = time.time()
         bad, log = ctx.eval_cases(hdr, "case", "check_case", coq_cases, shard=24)
         ctx.notes["t_coq_cases_s"] = round(time.time() - t0, 1)
+        for b in (bad or []):
+            if cases[coq_idx[b]].get("pinned"):
+                regress[cases[coq_idx[b]]["pinned"]].append("model and implementation disagree")
         for b in (bad or [])[:5]:
             i = coq_idx[b]
             c, r = cases[i], results[i].get("ok")
@@ -1036,6 +1055,12 @@ def run(ctx):
                         found_input=bool(r is not None and oracle(c, r)))
     else:
         ctx.obligation("correspondence:cases", "correspondence", False, "Model.vo not built")
+    # 5. the pinned cases of repaired defects must satisfy the oracle and agree with the (current) model
+    for sig in sorted(regress):
+        ok_sig = sig in ran_pinned and not regress[sig]
+        ctx.obligation("regression:" + sig, "regression", ok_sig,
+                       "pinned case corpus/C05/%s.json passes" % sig if ok_sig else
+                       ("did not run" if sig not in ran_pinned else "; ".join(regress[sig])[:600]))
 
 
 def _small(x, limit=4000):
